@@ -546,3 +546,19 @@ theorem findSubseq_primary {ns : NewSsi} (h : ns.WF) (hd : ns.Distinct) (k : PKe
   · simp [hfast, hitOf]
 
 end EaselModel.Ssi
+
+namespace EaselModel.Ssi
+
+theorem findSubseq_range {ns : NewSsi} (h : ns.WF) (hd : ns.Distinct) (k : PKey) (hk : k ∈ ns.pkeys)
+    (start : Int) (hr : start < 1 ∨ start > (k.len : Int)) (hL : k.len < 2^63) :
+    ns.opened.findSubseq k.key start = .error .erange := by
+  have hfind : ns.opened.findName k.key = .ok (hitOf k) := findName_primary h hd k hk (FUEL - 1)
+  have hsg : toSigned k.len = (k.len : Int) := by
+    unfold toSigned
+    have : ¬ (k.len ≥ 2^63) := by omega
+    simp [this]
+  unfold Ssi.findSubseq
+  rw [hfind]
+  simp only [hitOf, hsg, hr, ↓reduceIte]
+
+end EaselModel.Ssi
